@@ -88,6 +88,29 @@ def check_invariants(d, where, Definition):
     except Exception as e:
         COL.violation(where, 'state:own-triple-not-accepted-by-Definition', None, repr(e),
                       {'triple': [objects, properties, bools]})
+    # the read API agrees with the triple: d[o, p], d[0..2], tuple(d)
+    if len(objects) * len(properties) <= 30:
+        try:
+            cells = [tuple(bool(d[o, p]) for p in properties) for o in objects]
+            parts = (tuple(d[0]), tuple(d[1]), [tuple(r) for r in d[2]])
+            unpacked = tuple(d)
+        except Exception as e:
+            COL.violation(where, 'state:cell-or-index-lookup-raised', 'values', repr(e))
+        else:
+            COL.count('read_api_checked')
+            if cells != bools or parts != (objects, properties, bools) or \
+                    (tuple(unpacked[0]), tuple(unpacked[1]), [tuple(r) for r in unpacked[2]]) != (objects, properties, bools):
+                COL.violation(where, 'state:cell-or-index-lookup-differs-from-triple', [objects, properties, bools],
+                              [cells, parts])
+        for o, p in (('no such object', properties[0] if properties else 'x'), (objects[0] if objects else 'x', 'no such property')):
+            try:
+                d[o, p]
+            except KeyError:
+                pass
+            except Exception as e:
+                COL.violation(where, 'state:unknown-cell-lookup-raised-other-than-KeyError', 'KeyError', repr(e))
+            else:
+                COL.violation(where, 'state:unknown-cell-lookup-returned', 'KeyError', 'a value')
     # optional internals: skipped silently when the private names are gone
     pairs = getattr(d, '_pairs', None)
     uo, up = getattr(d, '_objects', None), getattr(d, '_properties', None)
